@@ -5,7 +5,7 @@ import os
 import re
 import time
 
-from .common import BUILD, GUARD, NCPU, REPO, VERIF, Obligation, Undecided, offline_env, run, scan_trusted
+from .common import BUILD, BUILD_ROOT, GUARD, NCPU, REPO, VERIF, Obligation, Undecided, offline_env, run, scan_trusted
 
 
 class Harness:
@@ -216,7 +216,7 @@ def playback(rep, ob, crate_rel, features, target, timeout=900, values_only=Fals
         ob.replay['native_outcome'] = ('not replayed natively: this harness replaces the global allocator by contract stubs, which '
                                        'concrete playback does not apply; the values above are the verifier\'s counterexample')
         return
-    pdir = os.path.join(BUILD, 'playback')
+    pdir = os.path.join(BUILD_ROOT, 'playback')   # mounted by absolute path from harness/async_support.rs
     os.makedirs(pdir, exist_ok=True)
     tname = re.search(r'fn (kani_concrete_playback_\w+)', test_src).group(1)
     with open(os.path.join(pdir, 'tests.rs'), 'w') as f:
